@@ -56,8 +56,33 @@ func init() {
 			}
 			cfgs = two
 		}
+		// anslens=<list>: the datagram service answers with datagrams of these sizes (up to the largest the
+		// server's relay can carry in one frame), one query per configuration
+		if al := c.P("anslens", ""); al != "" {
+			var big []cfg
+			for _, cf := range cfgs {
+				if cf.apps == 1 {
+					for _, n := range parseIntsC(al) {
+						cf := cf
+						cf.sizes = []int{1}
+						cf.order = fmt.Sprint(n)
+						big = append(big, cf)
+					}
+				}
+			}
+			cfgs = big
+		}
+		defer func() { udpAnswerLen = 0 }()
 		for _, cf := range cfgs {
+			udpAnswerLen = 0
+			if c.P("anslens", "") != "" {
+				fmt.Sscan(cf.order, &udpAnswerLen)
+				cf.order = "blocks"
+			}
 			msg := udpRouteOne(cf.singleplex, cf.method, cf.apps, cf.sizes, cf.order)
+			if udpAnswerLen > 0 {
+				cf.order = fmt.Sprintf("answer of %d bytes", udpAnswerLen)
+			}
 			rep.Executions++
 			rep.Transitions += int64(cf.apps * len(cf.sizes) * 2)
 			if msg != "" {
@@ -74,6 +99,17 @@ func init() {
 		rep.States = rep.Executions
 		return rep
 	}})
+}
+
+// udpAnswerLen > 0: the datagram service pads its answers to this many bytes.
+var udpAnswerLen int
+
+func udpAnswer(q []byte) []byte {
+	a := append([]byte("ans:"), q...)
+	for j := len(a); j < udpAnswerLen; j++ {
+		a = append(a, byte(j*7+3))
+	}
+	return a
 }
 
 func udpRouteOne(singleplex bool, method string, apps int, sizes []int, order string) string {
@@ -120,7 +156,7 @@ func udpRouteRun(singleplex bool, method string, apps int, sizes []int, order st
 						if emptyAnswers {
 							pc.Write([]byte{})
 						}
-						pc.Write(append([]byte("ans:"), q...))
+						pc.Write(udpAnswer(q))
 					}()
 				}
 			}()
@@ -224,7 +260,7 @@ func udpRouteRun(singleplex bool, method string, apps int, sizes []int, order st
 		}
 		var want [][]byte
 		for k := range sizes {
-			want = append(want, append([]byte("ans:"), query(a, k)...))
+			want = append(want, udpAnswer(query(a, k)))
 		}
 		sort.Slice(got, func(i, j int) bool { return bytes.Compare(got[i], got[j]) < 0 })
 		sort.Slice(want, func(i, j int) bool { return bytes.Compare(want[i], want[j]) < 0 })
